@@ -80,7 +80,7 @@ Proof. exact tagged_selects_own. Qed.
    this remains a partial composition.  The checker runs on the generator model's items per case
    (RunResp.certified); the theorem quantifies over all payloads. *)
 Theorem C01_checker_sound : forall s frags henv env fuel name t sels B,
-  sel_need s henv env fuel name t sels = Some B ->
+  sel_need s frags henv env fuel name t sels = Some B ->
   forall F, B <= F -> forall Fj m rt, In rt (possible s t) -> cobj s frags Fj rt sels m = true ->
   is_some (deser henv F env (RNamed name) (JObj m)) = true.
 Proof. exact sel_accepts. Qed.
@@ -106,7 +106,8 @@ Definition cert_example_schema : sdl_doc :=
          DObject "Query" [] [mkFD "dogs" (GNonNull (GList (GNonNull (GNamed "Dog")))) None; mkFD "count" (GNonNull (GNamed "Int")) None;
                              mkFD "animals" (GList (GNamed "Animal")) None; mkFD "pet" (GNamed "Pet") None]] None.
 Definition cert_example_doc : list qdef :=
-  [QOp OQuery (Some "Q") []
+  [QFrag "OwnerBits" "Person" [SField None "name" []; SField (Some "since") "born" []];
+   QOp OQuery (Some "Q") []
      [SField None "count" [];
       SField None "animals" [SField None "__typename" []; SField None "id" [];
                              SInline (Some "Cat") [SField None "lives" []]];
@@ -114,7 +115,7 @@ Definition cert_example_doc : list qdef :=
       SField (Some "all") "dogs" [SField None "__typename" []; SField None "id" []; SField None "tags" [];
                                   SField None "nick" []; SField None "name" []; SField None "color" [];
                                   SField None "weights" [];
-                                  SField None "owner" [SField None "name" []; SField None "born" []];
+                                  SField None "owner" [SSpread "OwnerBits"; SField (Some "n2") "name" []];
                                   SField None "friends" [SField (Some "n") "name" []]]]].
 Example C01_certificate_example :
   match schema_of_sdl cert_example_schema with
